@@ -53,7 +53,9 @@ def run(R):
     R.extra['table_calls'] = t.calls
     R.extra['exact_entries'] = len(t.exact)
     R.extra['any_entries'] = len(t.any)
-    R.extra['states'] = sorted(t.states())
+    R.extra['state_names'] = sorted(t.states())
+    R.extra['states'] = len(t.states())
+    R.extra['transitions'] = len(t.exact) + len(t.any) + 1
     R.extra['actions'] = acts
     with R.clause('D1', 'FSM', floor=14, desc='transition table is total; every state known and reachable') as c:
         c.need(t.calls >= 40, 'only %d table-building calls found in ANSI.__init__' % t.calls)
